@@ -166,6 +166,25 @@ def build(ift, s, dom):
         md = ift.MultiDomain.make({kk: mk_dom(ift, v[0]) for kk, v in s[1].items()})
         ops = {kk: build(ift, v[1], md[kk]) for kk, v in s[1].items() if v[1] is not None}
         return ift.BlockDiagonalOperator(md, ops)
+    if k == "mdsum":
+        # summands on (overlapping) sub-MultiDomains of {key: RGSpace(npix)}: likelihood-metric style
+        # sandwiches  (sum_k w_k FieldAdapter_k)^H cheese (sum_k w_k FieldAdapter_k)  and block-diagonals
+        pix = mk_dom(ift, s[1])
+        ops = []
+        for sm in s[2]:
+            if sm[0] == "mdsand":
+                bun = None
+                for kk, w in sm[1]:
+                    t = ift.FieldAdapter(pix, kk).scale(w) if w != 1.0 else ift.FieldAdapter(pix, kk)
+                    bun = t if bun is None else bun + t
+                ops.append(ift.SandwichOperator.make(bun, build(ift, sm[2], pix)))
+            else:
+                md = ift.MultiDomain.make({kk: pix for kk, _ in sm[1]})
+                ops.append(ift.BlockDiagonalOperator(md, {kk: build(ift, sp, pix) for kk, sp in sm[1]}))
+        r = ops[0]
+        for o in ops[1:]:
+            r = r + o
+        return r
     if k == "inven":
         ic = ift.GradientNormController(tol_abs_gradnorm=1e-13, iteration_limit=200)
         return ift.InversionEnabler(build(ift, s[1], dom), ic)
@@ -300,6 +319,8 @@ def gen_case(rng):
         if rng.integers(2):
             s = ["inverse", s]
         return {"n": a * b, "spec": s, "inv": bool(rng.integers(2))}
+    if rng.integers(10) == 0:
+        return gen_mdsum(rng)
     n = int(rng.integers(1, 4))
     if rng.integers(8) == 0:
         # the main use of SamplingEnabler: inverse draws of likelihood + prior through the solver
@@ -341,6 +362,37 @@ def zero_family():
     for inv in (False, True):
         out.append({"n": 3, "spec": ["sandwich", ["fftshift"], ["inverse", ["diag", [4.0, 0.0, 1.0], None, "f"]], None], "inv": inv})
         out.append({"n": 3, "spec": ["block", {"a": [2, ["inverse", ["diag", [0.0, 4.0], None, "f"]]], "b": [1, ["scal", 0.0, 0.0, "f"]]}], "inv": inv})
+    return out
+
+
+def gen_mdsum(rng):
+    npix = int(rng.integers(1, 3))
+    keys = ["a", "b", "c"]
+    nsum = int(rng.integers(2, 4))
+    sms = []
+    for _ in range(nsum):
+        sub = sorted(rng.choice(3, size=int(rng.integers(1, 3)), replace=False).tolist())
+        if rng.integers(3):
+            ws = [(keys[i], [1.0, 2.0, -1.0, 0.5][int(rng.integers(4))]) for i in sub]
+            ch = ["scal", VARS[int(rng.integers(len(VARS)))], 0.0, DTC[0]] if rng.integers(2) else \
+                 ["diag", [VARS[int(rng.integers(len(VARS)))] for _ in range(npix)], None, DTC[0]]
+            sms.append(["mdsand", [list(w) for w in ws], ch])
+        else:
+            sms.append(["mdblock", [[keys[i], gen_leaf(rng, npix, True)] for i in sub]])
+    used = sorted({kk for sm in sms for kk, _ in sm[1]})
+    return {"n": npix * len(used), "spec": ["mdsum", npix, sms], "inv": bool(rng.integers(4) == 0)}
+
+
+def mdsum_family():
+    """every run: block covariances on {a,b} and {b,c} (the shared key gets both variances), also three-fold"""
+    out = []
+    for dt in ("f", "c"):
+        ab = ["mdsand", [["a", 1.0], ["b", 2.0]], ["scal", 4.0, 0.0, dt]]
+        bc = ["mdsand", [["b", 1.0], ["c", -1.0]], ["diag", [1.0, 16.0], None, dt]]
+        blk = ["mdblock", [["b", ["scal", 0.25, 0.0, dt]], ["c", ["diag", [4.0, 1.0], None, dt]]]]
+        for sms in ([ab, bc], [bc, ab], [ab, blk], [ab, bc, blk], [blk, ["mdblock", [["a", ["scal", 1.0, 0.0, dt]], ["b", ["scal", 16.0, 0.0, dt]]]]]):
+            used = sorted({kk for sm in sms for kk, _ in sm[1]})
+            out.append({"n": 2 * len(used), "spec": ["mdsum", 2, sms], "inv": False})
     return out
 
 
@@ -442,7 +494,23 @@ def read(ift, op):
             inv = "(Some %s)" % crows(Bi.real)
         return "(CSand Qc (mklin %s %s) %s)" % (crows(B.real), inv, read(ift, op._cheese))
     if isinstance(op, SumOperator):
-        return "(CSum Qc %s)" % cl([read(ift, o) for o in op._ops])
+        terms = []
+        for o in op._ops:
+            t = read(ift, o)
+            if o.domain is not op.domain and not isinstance(o, ift.NullOperator):
+                # a summand on a sub-MultiDomain: its sample is united (zero-filled) into the union domain
+                if not (isinstance(op.domain, ift.MultiDomain) and isinstance(o.domain, ift.MultiDomain)):
+                    raise Unreadable("summand on a foreign domain")
+                off, offs = 0, {}
+                for kk in op.domain.keys():
+                    offs[kk] = off
+                    off += op.domain[kk].size
+                pos = []
+                for kk in o.domain.keys():
+                    pos += list(range(offs[kk], offs[kk] + o.domain[kk].size))
+                t = "(CEmb Qc %s %d (mkemb %s))" % (t, int(o.domain.size), cl(["%d" % p for p in pos]))
+            terms.append(t)
+        return "(CSum Qc %s)" % cl(terms)
     if isinstance(op, ift.NullOperator):
         return "(CNull Qc)"
     if isinstance(op, ift.BlockDiagonalOperator):
@@ -494,6 +562,16 @@ def expect_ok(s, inv):
         return (not inv) and all(expect_ok(o, False) for o in s[1])
     if k == "block":
         return all(v[1] is not None and expect_ok(v[1], inv) for v in s[1].values())
+    if k == "mdsum":
+        if inv:
+            return False
+        for sm in s[2]:
+            if sm[0] == "mdsand":
+                if not expect_ok(sm[2], False):
+                    return False
+            elif not all(expect_ok(sp, False) for _, sp in sm[1]):
+                return False
+        return True
     if k == "inven":
         return expect_ok(s[1], inv)
     if k == "sampen":
@@ -686,7 +764,7 @@ class C13(C.Check):
         import nifty.cl as ift
         self.ift = ift
         rng = ctx.rng(13)
-        todo = [c for c in ctx.corpus()] + zero_family()
+        todo = [c for c in ctx.corpus()] + zero_family() + mdsum_family()
         for _ in range(220 if ctx.quick else 2500):
             todo.append(json.loads(json.dumps(gen_case(rng))))
         self.cases = []
@@ -717,7 +795,7 @@ class C13(C.Check):
         res.coverage.update({
             "evaluations": len(self.cases), "modelled_cases_compared_in_coq": len(checks),
             "distinct_nontrivial": distinct,
-            "rule": "random operator expressions (depth <= 2) plus a systematic family of semi-definite and positive scalings/diagonals under every mode flip (all four _trafo values) x dtype x direction, over scaling / diagonal (full, partial-space, .inverse/.adjoint, real and complex sampling dtype, missing dtype, zero / negative / complex entries) / sandwiches (matrix, invertible diagonal, scaling, expanding, masking buns; cheese or sampling_dtype) / sums / block-diagonals (with missing keys) / adapters / InversionEnabler / SamplingEnabler, forward and inverse draws; non-trivial = anything but a bare scaling; distinct by JSON",
+            "rule": "random operator expressions (depth <= 2) plus a systematic family of semi-definite and positive scalings/diagonals under every mode flip (all four _trafo values) x dtype x direction, over scaling / diagonal (full, partial-space, .inverse/.adjoint, real and complex sampling dtype, missing dtype, zero / negative / complex entries) / sandwiches (matrix, invertible diagonal, scaling, expanding, masking buns; cheese or sampling_dtype) / sums (also of summands on overlapping sub-MultiDomains, e.g. block covariances on {a,b} and {b,c}) / block-diagonals (with missing keys) / adapters / InversionEnabler / SamplingEnabler, forward and inverse draws; non-trivial = anything but a bare scaling; distinct by JSON",
             "samples": [o["case"] for o in self.cases[:3]],
             "input_distribution": {"top_level_kind": kinds, "outcome": outcomes},
             "disagreements": len(bad),
